@@ -2,7 +2,7 @@
    pinned by [Check name : statement] and followed by [Print Assumptions]. *)
 From Coq Require Import Sorting.Sorted Sorting.Permutation Strings.String Strings.Ascii.
 From RM Require C09.Model C09.Grammar C09.Driver.
-From RM Require Import C08.SymText C08.SymTextC C08.SymTextCfi.
+From RM Require Import C08.SymText C08.SymTextC C08.SymTextCfi C08.SymTextWin.
 From RM Require Import C08.Model C08.Proofs C08.IndexProofs C08.WinModel C08.WinProofs C08.Driver Gen.C08Tables C08.Tie C08.EndToEnd C08.StreamRead C08.Unified.
 Open Scope Z_scope.
 
@@ -526,6 +526,26 @@ Theorem c08_text_cfi_complete :
         C09.Grammar.sc_init c = C09.Grammar.ci_init c0 /\ C09.Grammar.sc_size c = sz.
 Proof. exact text_cfi_complete_arith. Qed.
 Print Assumptions c08_text_cfi_complete.
+
+(* ... and for the two STACK WIN tables (C08/SymTextWin.v; fd = true: frame data, false: FPO; win_item fd w is the item
+   of a STACK WIN line of that type): a STACK WIN line is always a top-level line, and a line whose range meets the
+   range of no other STACK WIN line of its type is returned AS WRITTEN (the overlap repair leaves it alone: it only
+   ever looks at and changes the last vector element) at every address of its range *)
+Theorem c08_text_win_complete :
+  forall lines tail sch p s,
+  Forall (fun l => C09.Grammar.cllen l <= C09.Model.HALF_CAP) lines ->
+  C09.Driver.drive_c lines tail sch = Ret (C09.Model.ROk p, s) ->
+  exists t, C09.Driver.table_of (C09.Model.ROk p) = Ret (Some t) /\
+    forall fd L1 s0 L2 w0 x,
+      lines = L1 ++ s0 :: L2 -> C09.Grammar.line_top s0 = Some (win_item fd w0) ->
+      let a := C09.Grammar.wi_addr w0 in let sz := C09.Grammar.wi_size w0 in
+      sz <> 0 -> a + sz < two64 -> a <= x < a + sz ->
+      (forall s' w', In s' (L1 ++ L2) -> C09.Grammar.line_top s' = Some (win_item fd w') ->
+         C09.Grammar.wi_size w' = 0 \/ two64 <= C09.Grammar.wi_addr w' + C09.Grammar.wi_size w' \/
+         C09.Grammar.wi_addr w' + C09.Grammar.wi_size w' <= a \/ a + sz <= C09.Grammar.wi_addr w') ->
+      rm_get (if fd then C09.Grammar.t_win_fd t else C09.Grammar.t_win_fpo t) x = Some w0.
+Proof. exact text_win_complete_both. Qed.
+Print Assumptions c08_text_win_complete.
 
 (* non-vacuity: a text with two overlapping FUNCs (the second is dropped), line records (one empty, one conflicting),
    a STACK CFI INIT record, two overlapping STACK WIN records (the first is shortened) and a FUNC reaching past the
